@@ -22,6 +22,12 @@ CHECKS = {
  "C05": (EX, "DESIGN.md §3 C05", "runtime monitoring: response Update lists vs reference per-target field model",
          "Update lists of create/update/stop responses from the real adaptation are checked for one entry per target with exactly the owners' fields, own entry last, self-update failing, dropped ignore-failure updates leaking nothing.",
          "Flag value of a combined entry and blank entries for targets whose only updates were dropped are not asserted (unstated)."),
+ "C06": (EX, "DESIGN.md §3 C06", "runtime monitoring: unique-id handler-invocation log and call/return log of a real Adaptation with stub plugins, offline exactly-once/order checkers, porcupine sequencer model, race detector, CPU-affinity sweeps",
+         "Plugins with enumerated/sampled subscription masks (all 8192 in the thorough tier), tied and distinct indices, registering before and during traffic, receive random sequences of the thirteen lifecycle calls from 1/4/16 concurrent callers; the logs are checked for exactly-once delivery to subscribed active plugins, index order, one common order, real-time order and own results.",
+         "Activity of a plugin for a request is decided from the sync-block ticket vs the plugin's Synchronize tick; equal-index order is not asserted."),
+ "C08": (EX, "DESIGN.md §3 C08", "runtime monitoring: exactly-once checker over snapshot/creation id logs, online monitor of held sync blocks vs running synchronisations, hook-widened race windows, race detector",
+         "Concurrent creators under sync blocks and plugins registering meanwhile; for every registered plugin and every container of the runtime's store, snapshot membership plus creation events must be exactly one; the sync callback must never run while a block is held; pending registrations must complete.",
+         "The runtime side follows the documented sync-block contract; schedules are those produced by 1-16 CPUs, repetition and the hook yields."),
  "C10": (EX, "DESIGN.md §3 C10", "runtime monitoring: stream parser + real-time-order monitor over recorded write/read histories of two real Mux endpoints, porcupine FIFO check on short histories, race detector, hook-widened interleavings",
          "Concurrent writers and readers over K logical connections of two real multiplexer endpoints (socketpair and net.Pipe trunks, queue lengths 2-256, payloads from empty to several frames); each delivered stream is parsed for completeness, order, integrity and isolation; harness-side credit enforces 'receiver keeps up'.",
          "Readers pass a buffer of one full frame; connection ids are opened on both ends before traffic."),
@@ -37,6 +43,9 @@ CHECKS = {
  "C13": (EX, "DESIGN.md §3 C13", "runtime monitoring: reference interpreter vs Generator.Adjust, repeated-application determinism monitor, mount-order and untouched-remainder assertions",
          "Random specs x adjustments applied by the real generator 16/32 times each; result compared with a reference interpreter written from the statement, with itself across repetitions, and checked for parent-before-child mounts and an untouched remainder.",
          "Memory limit also setting swap is taken as intended (asserted by the repo's own suite); rshared/rslave propagation excluded (reads the host mount table)."),
+ "C19": (EX, "DESIGN.md §3 C19", "runtime monitoring: online mutual-exclusion counters in the update callback and lifecycle handlers, offline exactly-once/equality checker over unique update ids, porcupine sequencer model, race detector",
+         "Plugins issue unsolicited updates concurrently with each other and with lifecycle requests; the callback's overlap with itself and with any handler is counted online; arguments and results are compared by unique id offline.",
+         "Overlap is observed at the callback and handler boundaries of one process; empty update lists carry no id and are not generated."),
 }
 
 NOT_YET = {}
